@@ -64,6 +64,18 @@ func inventoryFuncs(c *Ctx) []*ssa.Function {
 			}
 		}
 	}
+	for _, fn := range startFuncs(c) {
+		if fn.Parent() == nil {
+			add(fn)
+		}
+	}
+	if p := c.PkgRel("protocols/cmp/config"); p != nil {
+		for _, fn := range funcsOfPkg(c, c.SSA[p.Types]) {
+			if fn.Parent() == nil {
+				add(fn)
+			}
+		}
+	}
 	sort.Slice(out, func(i, j int) bool { return c.FuncName(out[i]) < c.FuncName(out[j]) })
 	return out
 }
